@@ -9,7 +9,7 @@ from ..cases import Interp, Lin, Obj, Oracle, RankOracle, Sym, Undecided, weak_o
 from ..cfg import CFG, EXIT
 from ..core import Ctx
 from ..model import AnalysisError, FuncInfo, canon, dotted, kwarg, norm, walk_no_nested
-from .common import assigned_value, conditions_at, else_part, enclosing, expand_locals, pargs, prog, resolve_local
+from .common import assigned_value, check_sampler_init, conditions_at, else_part, enclosing, expand_locals, pargs, prog, resolve_local
 
 TERMS = {"S": Lin.atom("S"), "E": Lin.atom("E"),
          "L": Lin.atom("pivot") - Lin.atom("dist"), "H": Lin.atom("pivot") + Lin.atom("dist")}
@@ -432,4 +432,5 @@ def run(ctx: Ctx):
                         "pivot separation when the continuum is too short (fallback draw) - excluded by the property"]
     ctx.assumptions += ["dist > 0 and start < end (side conditions of the case split)", "numpy.random.choice / uniform semantics"]
     rule_subtraction(ctx)
+    check_sampler_init(ctx, "R-C16-3")       # the reference whose bounds / average unit length / units the sample is made from is the one given
     rule_sample(ctx)
